@@ -14,7 +14,7 @@ from pyvc import sym
 from pyvc.sym import lift, cfrac_eq, frac_eq
 from pyvc.interp import PyRaise, _dft_matrix
 from pyvc.oblig import obligation, verify, bounded, exhaustive, Goal, merge
-from .common import stable_rng, quick
+from .common import stable_rng, quick, Frame
 from .C20 import _meq
 from .C03 import _sig, _profile, _conv_spec
 
@@ -112,17 +112,25 @@ def ob_roundtrip(fft, cp, used):
     return verify(body, check_side=False, timeout_ms=60000)
 
 
-@obligation("roundtrip/after_set_parameters_history", timeout=200,
-            desc="history: OFDM(2,0,2) used once, then set_parameters(4,1,2) (larger fft, same used count): indexes, emitted signal and round "
-                 "trip are those of a fresh OFDM(4,1,2); then set_parameters(4,2,4)")
-def ob_history():
+@obligation("roundtrip/after_set_parameters_history", params=[{"seq": q} for q in ("grow_fft", "same_fft_fewer_used", "same_fft_more_used")],
+            timeout=200,
+            desc="history on ONE object (modulate/demodulate, then set_parameters, again and again; input lengths chosen so that the number of "
+                 "OFDM symbols repeats): after every step indexes, emitted signal and round trip are those of a fresh object with the "
+                 "current parameters - in particular carriers outside the current used set carry nothing left over from earlier use")
+def ob_history(seq="grow_fft"):
+    SEQS = {"grow_fft": ((2, 0, 2, 3), [(4, 1, 2, 3), (4, 2, 4, 3), (2, 1, 2, 3)]),
+            "same_fft_fewer_used": ((4, 1, 4, 4), [(4, 1, 2, 2), (4, 0, 4, 4), (4, 3, 2, 2), (4, 3, 2, 1)]),
+            "same_fft_more_used": ((4, 2, 2, 4), [(4, 2, 4, 8), (4, 2, 2, 3), (4, 1, 4, 5)])}
+
     def body(c, it):
         from pyphysim.modulators import ofdm
-        o = it.call(ofdm.OFDM, [2, 0, 2])
-        x = _sig(c, "x", 3)
-        it.call(it.getattr(o, "demodulate"), [it.call(it.getattr(o, "modulate"), [x])])
+        (f0, cp0, u0, n0), steps = SEQS[seq]
+        o = it.call(ofdm.OFDM, [f0, cp0, u0])
+        x0 = _sig(c, "x", n0)
+        it.call(it.getattr(o, "demodulate"), [it.call(it.getattr(o, "modulate"), [x0])])
         goals = []
-        for (f, cp, u) in ((4, 1, 2), (4, 2, 4), (2, 1, 2)):
+        for k, (f, cp, u, n) in enumerate(steps):
+            x = _sig(c, "y%d" % k, n)
             it.call(it.getattr(o, "set_parameters"), [f, cp, u])
             fresh = it.call(ofdm.OFDM, [f, cp, u])
             a = it.call(it.getattr(o, "get_used_subcarrier_indexes"), [])
@@ -130,10 +138,10 @@ def ob_history():
             goals.append(Goal("(%d,%d,%d): indexes as for a fresh object" % (f, cp, u), list(map(int, a)) == list(map(int, b))))
             t1 = it.call(it.getattr(o, "modulate"), [x])
             t2 = it.call(it.getattr(fresh, "modulate"), [x])
-            goals.append(Goal("(%d,%d,%d): emitted signal as for a fresh object" % (f, cp, u), _meq(t1, t2)))
+            goals.append(Goal("(%d,%d,%d) len %d: emitted signal as for a fresh object" % (f, cp, u, n), _meq(t1, t2)))
             rx = it.call(it.getattr(o, "demodulate"), [t1.copy()])
-            nz = (-(-3 // u)) * u - 3
-            goals.append(Goal("(%d,%d,%d): round trip" % (f, cp, u), _meq(rx, np.concatenate([x, np.zeros(nz, dtype=object)]))))
+            nz = (-(-n // u)) * u - n
+            goals.append(Goal("(%d,%d,%d) len %d: round trip" % (f, cp, u, n), _meq(rx, np.concatenate([x, np.zeros(nz, dtype=object)]))))
         return goals
     return verify(body, check_side=False, timeout_ms=60000)
 
@@ -241,7 +249,9 @@ def ob_native():
         o.set_parameters(fft, cp, used)
         n = int(rr.randint(1, 4 * used))
         x = rr.randn(n) + 1j * rr.randn(n)
+        fr = Frame(data=x)
         tx = o.modulate(x)
+        fr.watch(emitted=tx)
         nsym = -(-n // used)
         if tx.shape != (nsym * (fft + cp),):
             return {"emitted length": list(tx.shape), "expected": nsym * (fft + cp)}
@@ -258,7 +268,10 @@ def ob_native():
         fresh = ofdm.OFDM(fft, cp, used)
         if (not (np.abs(fresh.modulate(x) - tx).max() <= 1e-12)):
             return {"differs from a fresh object with the same parameters": True}
-        rx = o.demodulate(tx.copy())
+        rx = o.demodulate(tx.copy())      # (demodulate reshapes the array it is given - pinned behaviour, outside the property)
+        again = o.modulate(rr.randn(n) + 1j * rr.randn(n))       # a later transmission of the same size on the same object
+        if fr.changed():
+            return {"frame": fr.changed() + " (by a later modulate of the same object)", "fft": fft, "cp": cp, "used": used}
         want = np.concatenate([x, np.zeros(nsym * used - n)])
         if rx.shape != want.shape or (not (np.abs(rx - want).max() <= 1e-10 * max(1, np.abs(x).max()))):
             return {"round trip": float(np.abs(rx - want).max()) if rx.shape == want.shape else "shape"}
